@@ -394,6 +394,28 @@ Proof.
   constructor; [apply good_head|]. constructor; [apply gs_twopass | constructor].
 Qed.
 
+(* a command that rewrites rows between tail and the two-pass command is applied once (tail gives
+   away copies of its kept result); stats without BY in front of a two-pass command is not doubled *)
+Theorem tail_rowwise_then_two_pass n f t ew bs :
+  stream_rows (build_chain (src_stream ew bs)
+                 [RStage (tail_proc n) bottleneck_flags; RStage (rowwise_proc f) streaming_flags;
+                  RStage (twopass_proc t) twopass_flags])
+  = Some (tp_sem t (flat_map f (rev (lastN n (concat bs))))).
+Proof.
+  apply (rewound_chain_meaning _ [fun R => rev (lastN n R); flat_map f; tp_sem t]).
+  constructor; [apply good_tail|]. constructor; [apply good_rowwise|].
+  constructor; [apply gs_twopass | constructor].
+Qed.
+Theorem stats_noby_then_two_pass vf countf sumf t ew bs :
+  stream_rows (build_chain (src_stream ew bs)
+                 [RStage (agg_proc (gstats_cmd [] vf countf sumf)) bottleneck_flags;
+                  RStage (twopass_proc t) twopass_flags])
+  = Some (tp_sem t (run (gstats_cmd [] vf countf sumf) [concat bs])).
+Proof.
+  apply (rewound_chain_meaning _ [fun R => run (gstats_cmd [] vf countf sumf) [R]; tp_sem t]).
+  constructor; [apply good_gstats|]. constructor; [apply gs_twopass | constructor].
+Qed.
+
 (* ---------- what the hypotheses on Rewind exclude ---------- *)
 Definition fid : field := [105; 100].
 Definition rid (k : Z) : row := [(fid, VNum k)].
